@@ -52,7 +52,13 @@ fn run_case(i: usize, case: &Value) -> Value {
         for (k, v) in &mdc {
             log_mdc::insert(k.clone(), v.clone());
         }
-        let enc = log4rs::encode::json::JsonEncoder::new();
+        // every other record uses an encoder built from a configuration value ({kind: json})
+        let enc: Box<dyn Encode> = if i % 2 == 1 {
+            let v: serde_value::Value = serde_json::from_value(json!({})).unwrap();
+            log4rs::config::Deserializers::default().deserialize::<dyn Encode>("json", v).expect("json encoder from configuration")
+        } else {
+            Box::new(log4rs::encode::json::JsonEncoder::new())
+        };
         // an earlier record of this thread whose sink failed part-way must leave nothing behind
         let mut broken = Cap::new(vec![]);
         broken.fail_after = Some((i % 6) * 7);
